@@ -354,7 +354,11 @@ impl Drop for TransactionGuard {
                 tracker,
                 transaction_id,
             } => {
+                #[cfg(redb_verif)]
+                crate::verif::pause("txguard.write.before_end");
                 if let Some(mem) = tracker.end_write_transaction(*transaction_id) {
+                    #[cfg(redb_verif)]
+                    crate::verif::pause("txguard.write.after_end");
                     // The Database was dropped while this transaction was live, deferring
                     // the database close to the end of this transaction
                     close_database(tracker, &mem);
@@ -555,6 +559,8 @@ impl Sealed for Database {}
 impl ReadableDatabase for Database {
     fn begin_read(&self) -> Result<ReadTransaction, TransactionError> {
         let guard = TransactionGuard::allocate_read(self.transaction_tracker.clone(), &self.mem)?;
+        #[cfg(redb_verif)]
+        crate::verif::pause("read.registered");
         #[cfg(feature = "logging")]
         debug!("Beginning read transaction id={:?}", guard.id());
         ReadTransaction::new(self.get_memory(), guard)
@@ -1312,6 +1318,8 @@ fn begin_write_with_allocation_policy(
         transaction_tracker.start_write_transaction(),
         transaction_tracker.clone(),
     );
+    #[cfg(redb_verif)]
+    crate::verif::pause("write.slot_acquired");
     // Re-checked after acquiring the write slot: the writer this call blocked on can fail its
     // commit, latching an I/O error and discarding the allocator state. The I/O check comes
     // first so a backend failure is not misreported as corruption. Returning drops the guard,
@@ -1378,6 +1386,8 @@ fn close_database(transaction_tracker: &Arc<TransactionTracker>, mem: &Arc<Trans
 
 impl Drop for Database {
     fn drop(&mut self) {
+        #[cfg(redb_verif)]
+        crate::verif::pause("db.drop.begin");
         if self
             .transaction_tracker
             .defer_close_if_write_transaction_live(&self.mem)
@@ -1390,6 +1400,8 @@ impl Drop for Database {
             );
             return;
         }
+        #[cfg(redb_verif)]
+        crate::verif::pause("db.drop.after_defer");
 
         close_database(&self.transaction_tracker, &self.mem);
     }
